@@ -45,6 +45,8 @@ func runC15(c *Ctx) {
 	// other folds of functions with reviewed sites
 	c02Cipher(c)
 	c12Cbuf(c)
+	writerGrowRules(c, "C15")
+	writerFlushFragmentRules(c, "C15")
 	// last: the bounds rule uses what every fold above established about the sites it executed
 	c15Bounds(c)
 }
